@@ -50,8 +50,9 @@ func HistogramQuantile(hist Histogram, q float64) float64 {
 	if goal <= under || goal > total-over {
 		return math.NaN()
 	}
+	goal -= under
 	for bin, count := range counts {
-		if count > goal {
+		if count >= goal {
 			return hist.BinToValue(float64(bin) + float64(goal)/float64(count))
 		}
 		goal -= count
